@@ -35,6 +35,22 @@ CLAIMED = {
         technique="Lean 4 theorems (list tiling, induction over the round-robin loop) + differential correspondence check; "
                   "sticky: Lean-defined checker evaluated on implementation output",
     ),
+    "C11": dict(
+        text="Lean 4 proof of a schema-generic round trip (decode (encode v ++ rest) = (v, rest) for every schema type "
+             "built from the 18 wire types, by mutual induction) — hence for each of the ~216 struct classes, whose "
+             "schemas are regenerated from /repo into Lean on every run; layout theorems for fixed-width "
+             "big-endian integers and base-128/zig-zag varints; prepare(): chosen version is implemented, inside the "
+             "broker range, the highest such, and disjoint ranges are rejected; kernel-decided table facts: every "
+             "request's RESPONSE_TYPE has the request's API key and the schema of the response of the request's own "
+             "version, flexible structs end in tagged fields, builder class lists are strictly increasing. The model "
+             "is tied to /repo by differential encode/decode of every struct with random in-range values, boundary "
+             "values of every primitive, prepare() over every builder × every range, and exhaustive builder "
+             "parameter/version rules. PARTIAL: per-API field lists are not compared with an independent Kafka table.",
+        design="3/C11",
+        note="trusted: Lean kernel (+3 standard axioms); extractor harness/extract/schemas.py; T-diff harness; strings "
+             "as UTF-8 bytes; hand-written BUILDER_RULES table of first-expressing versions.",
+        technique="Lean 4 theorem (mutual induction over schema types) + source-to-Lean schema translator + differential correspondence check",
+    ),
 }
 
 NOT_YET = {}
